@@ -15,7 +15,8 @@ RTP::RTP()
     version(2);
 }
 
-RTP::RTP(const uint8_t* buffer, uint32_t total_sz) {
+RTP::RTP(const uint8_t* buffer, uint32_t total_sz) 
+: header_(), ext_header_(), padding_size_(0) {
     InputMemoryStream stream(buffer, total_sz);
     stream.read(header_);
 
